@@ -11,12 +11,10 @@ package compactindex
 
 // ---- little-endian helpers ----
 
-// intWidth: the body is bits.LeadingZeros64 (external, not modelled by vcgo: result arbitrary) plus one division, so the
-// contract is trusted (without `trusted` the three post obligations are `sat` only because of the unmodelled call).
+// intWidth: bits.LeadingZeros64 is modelled exactly in bit-vector mode, so the body is verified (it was a trusted row before).
 //@ func intWidth
 //@   mode bv
 //@   pure
-//@   trusted
 //@   ensures result <= 8
 //@   ensures result < 8 ==> n >> (8*uint(result)) == 0
 //@   ensures result > 0 ==> n >> (8*(uint(result)-1)) != 0
